@@ -113,6 +113,11 @@ def nts_of(rules, V):
 
 def run_free(case):
     r = _run_free(case, None)
+    if len(case["rules"]) >= 2:
+        r2 = _run_free(case, None, order=list(range(len(case["rules"])))[::-1])  # same grammar, rules added in reverse order
+        r["evals"] += r2["evals"]
+        r["fails"] += r2["fails"]
+        r["counters"]["executions"] += r2["counters"]["executions"]
     var_of = gram.shared_vars(case_rules(case))
     if var_of is not None:
         r2 = _run_free(case, var_of)  # duplicate rules equal by value (same weight)
@@ -122,15 +127,17 @@ def run_free(case):
     return r
 
 
-def _run_free(case, var_of):
+def _run_free(case, var_of, order=None):
     rules = case_rules(case)
     V = case_terms(case)
     NT = nts_of(rules, V)
     want = {X: table_total(enum_derivs(rules, X, V, Poly.D, var_of=var_of)) for X in NT}
     inp0 = {"rules": case["rules"]} if var_of is None else {"rules": case["rules"], "duplicates_share_weight": True}
+    if order is not None:
+        inp0["rule_order"] = "reversed"
     fails = []
     evals = 0
-    g = gram.build(rules, Poly, gram.poly_weights(len(rules)) if var_of is None else [Poly.var(v) for v in var_of], V=V)
+    g = gram.build(rules, Poly, gram.poly_weights(len(rules)) if var_of is None else [Poly.var(v) for v in var_of], V=V, order=order)
     for name, f in (("agenda", lambda: g.agenda()), ("naive_bottom_up", lambda: g.naive_bottom_up())):
         have = _call(f)
         evals += 1
@@ -171,6 +178,44 @@ class ExpRef:
 
 ExpRef.zero = ExpRef(0, 0)
 ExpRef.one = ExpRef(1, 0)
+
+
+class LogRef:
+    """Hand-written log-space arithmetic (reference, independent of semiring.Log)."""
+
+    __slots__ = ("s",)
+
+    def __init__(self, s):
+        self.s = s
+
+    def __add__(self, o):
+        import math
+
+        a, b = self.s, o.s
+        if a == float("-inf"):
+            return LogRef(b)
+        if b == float("-inf"):
+            return LogRef(a)
+        m = max(a, b)
+        return LogRef(m + math.log(math.exp(a - m) + math.exp(b - m)))
+
+    def __mul__(self, o):
+        if self.s == float("-inf") or o.s == float("-inf"):
+            return LogRef(float("-inf"))
+        return LogRef(self.s + o.s)
+
+    def __eq__(self, o):
+        return self.s == o.s
+
+    def metric(self, o):
+        if self.s == o.s:
+            return 0.0
+        return abs(self.s - o.s)
+
+
+LogRef.zero = LogRef(float("-inf"))
+LogRef.one = LogRef(0.0)
+LOGW = [-20.0, -0.5, -30.0, -1.0, -25.0, -2.0]  # incl. probabilities far below 1e-12
 
 
 def finite_derivations(rules, V, everywhere=False):
@@ -264,6 +309,38 @@ def run_num(case):
         evals += 1
         if isinstance(have, str) or any(not gram.fclose(have[X], wantf.get(X, 0.0)) for X in NT):
             fails.append(_fail(f"float {name} == least solution", inp0, have, wantf))
+    # Log semiring with very small probabilities (log-weights around -20 .. -30)
+    from genlm.grammar.semiring import Log
+
+    lw = [LOGW[i % len(LOGW)] for i in range(n)]
+    try:
+        wantl = ref_totals([(LogRef(w), h, b) for w, (h, b) in zip(lw, rules)], V, LogRef, tol=1e-13, maxit=400)
+        if any(v.s > 10 for v in wantl.values()):
+            wantl = None  # (near-)divergent weighting: outside "finite total weights"
+    except (NoConvergence, OverflowError):
+        wantl = None
+    if wantl is not None:
+        gl = gram.build(rules, Log, [Log(w) for w in lw], V=V)
+        from vf.ref_cfg import productive
+
+        Pset = productive(rules, V)
+        all_productive = all(X in Pset for X in NT)
+        for name, f in (("agenda", gl.agenda), ("naive_bottom_up", gl.naive_bottom_up)):
+            if not all_productive:
+                # Log.metric(zero, zero) is nan, so both evaluators only stop at their iteration caps
+                # (100000 rounds) when some nonterminal has total weight zero: correct but slow; skipped
+                continue
+            have = _call(f)
+            evals += 1
+            bad = isinstance(have, str)
+            if not bad:
+                for X in NT:
+                    hs = have[X].score
+                    ws = wantl[X].s if X in wantl else float("-inf")
+                    if not (hs == ws or abs(hs - ws) <= 1e-9):
+                        bad = True
+            if bad:
+                fails.append(_fail(f"Log {name} == least solution (small probabilities)", inp0, have, {k: v.s for k, v in wantl.items()}))
     # expected length: weight-weighted total string length
     erules = [(ExpRef(w, w * sum(1 for y in b if y in V)), h, b) for w, (h, b) in zip(fw, rules)]
     try:
